@@ -19,8 +19,8 @@ package main
 //   active <n>                        wait (<= 5 s) until the manager reports n active transactions -> active <m>
 
 import (
-	"bytes"
 	"bufio"
+	"bytes"
 	"context"
 	"errors"
 	"fmt"
